@@ -116,6 +116,7 @@ def run(ctx):
     R1 = ctx.rule('C01.R1', 'every input-side per-request field of the reusable front-ends is reset at the request boundary (or survives by design, one reason each)')
     R2 = ctx.rule('C01.R2', 'read-ahead cursors: every copy out of the FastCGI cache / HTTP input buffer / FastCGI body stays inside the buffer (linear proofs under the cursor invariant)')
     R3 = ctx.rule('C01.R3', 'a front-end that never resets (SCGI) is never reused')
+    R5 = ctx.rule('C01.R5', 'FastCGI record readers: after a record was taken - from the read-ahead cache or from the socket - the accumulated body is the previous body plus exactly the content of this record (padding removed), on both paths')
     R4 = ctx.rule('C01.R4', 'HTTP header budget: every pass charges exactly the bytes it hands to the parser (input_body_.size() - input_body_ptr_ at the parse loop), so the 16 KiB header limit does not depend on how the stream was segmented')
     n = reset_rule(ctx, P, R1, 'input')
     ctx.floor(R1, 25)
@@ -193,6 +194,38 @@ def run(ctx):
     lim = hr.gate_edges(lambda atom, pol: hr.N(atom)['k'] == 'BinaryOperator' and hr.N(atom).get('op') in ('>', '>=') and pol is True and any(model.strip_targs(r).endswith('http::total_read_') for r in hr.subtree_refs(atom)))
     ctx.check(bool(lim), R4, 'some_headers_data_read:limit-tested', 'the header budget is never compared with a limit', hr.where)
     ctx.floor(R4, 4)
+    # ---------------- R5 both record readers agree on what a record adds to body_
+    BODY = 'this.f:%s::body_.size()' % FC
+    CLEN = [None]
+
+    def resize_args(f):
+        S = q.symb_with_locals(f)
+        out = []
+        for i in q.field_calls(f, 'fastcgi::body_', 'resize'):
+            out.append((i, S.lin(f.args(i)[0])))
+        return out
+    nb = P.fn(FC + '::non_blocking_read_record')
+    ohr = P.fn(FC + '::on_header_read')
+    obr = P.fn(FC + '::on_body_read')
+    ra_nb, ra_h, ra_b = resize_args(nb), resize_args(ohr), resize_args(obr)
+
+    def atoms_named(l, name):
+        return [a_ for a_ in l.atoms() if model.strip_targs(a_).endswith(name)]
+    ok = len(ra_nb) >= 1 and len(ra_h) == 1 and len(ra_b) == 1
+    detail = {}
+    if ok:
+        last_nb = max(ra_nb, key=lambda x: (-nb.point_of(x[0])[0], nb.point_of(x[0])[1]))[1]
+        r1, r2 = ra_h[0][1], ra_b[0][1]
+        detail = {'cache path': repr(last_nb), 'socket path: before the read': repr(r1), 'socket path: after the read': repr(r2)}
+        # socket path: the second resize is expressed in the size the first one established
+        comp = r2.subst(BODY, r1) if BODY in r2.atoms() else None
+        cl_ = atoms_named(last_nb, 'fcgi_header::content_length')
+        ok = comp is not None and len(cl_) == 1 and (last_nb - Lin.atom(BODY) - Lin.atom(cl_[0])).key() == Lin.const(0).key() and (comp - last_nb).key() == Lin.const(0).key()
+    ctx.check(ok, R5, 'fastcgi:record-readers:body-grows-by-content-length', 'the two ways of reading a record do not both leave body_ = previous body + content of the record', obr.where, detail=detail)
+    # the final size of the cache path is set after the copy on every path that copied
+    rb = [i for i in nb.calls() if nb.bcallee(i) == FC + '::read_bytes']
+    ctx.check(len(rb) == 1 and len(ra_nb) == 2 and q.before(nb, ra_nb[0][0], rb[0]) and q.always_after(nb, rb[0], [ra_nb[-1][0]]), R5, 'non_blocking_read_record:grow-copy-trim', 'record is not copied into freshly grown space and trimmed afterwards', nb.where)
+    ctx.floor(R5, 2)
     ctx.assume('cursor invariants at member-function entry: fastcgi 0 <= cache_start_ <= cache_end_ <= cache_.size(), body_ptr_ <= body_.size(); http input_body_ptr_ <= input_body_.size(); '
                'an asynchronous read completes with at most the number of bytes of the buffer it was given')
     ctx.floor(R2, 12)
